@@ -52,7 +52,7 @@ def make_session(rnd, pad):
         gafname = name + (" ch=7 comment" if q % 4 == 2 else "")      # GraphAligner keeps the FASTQ comment: a blank inside column 1
         opt = [f"tp:A:{rnd.choice('PPS')}", f"cg:Z:{L}=", "NM:i:1"] + ([f"zz:Z:{'p' * pad}"] if pad else [])
         if not pad and q % 5 == 4:      # a free-text last field ending in white space that is not ASCII (no-break / ideographic space)
-            opt.append("co:Z:sample 7" + ["\u00a0", "\u3000", " \u00a0", " ", "  "][q % 5])      # ... or in plain blanks
+            opt.append("co:Z:sample 7" + ["\u00a0", "\u3000", " \u00a0", " ", "  "][q // 5 % 5])      # ... or in plain blanks
         recs.append("\t".join([gafname, str(L), "0", str(L), "+", "".join(o + n for o, n in steps), str(len(spelled)), str(ps), str(pe), str(L), str(L), str(rnd.choice([0, 30, 60]))] + opt))
         reads.append((name, read))
     return nodes, links, recs, reads
@@ -270,6 +270,23 @@ def run_session(job):
                                            "value": (read_out(o) if os.path.exists(o) else "") + f"|{r['status']}", "resolved": True}
                 if per[k][f"lateview{qi}"]["status"] == "exit":
                     per[k][f"lateview{qi}"]["status"] = "ok"
+        # the SAME path used again after its compression changed (a work directory reused by a pipeline: plain, then --bgzip onto the
+        # same name - gaftools recognises compression by content): plain -> BGZF -> plain -> BGZF, stat and a node query each time
+        plain_bytes = open(os.path.join(d, "in.gaf"), "rb").read()
+        bgzf_bytes = open(os.path.join(d, "in.gaf" + zsuf), "rb").read()
+        re_gaf = os.path.join(d, "reused.gaf")
+        re_gfa = os.path.join(d, "c0.gfa")
+        for k, (gs, fs) in enumerate(cfgs):
+            with open(re_gaf, "wb") as fh:
+                fh.write(bgzf_bytes if k % 2 else plain_bytes)
+            o = os.path.join(d, f"reuse{k}_stat")
+            r = run_cli(["stat", re_gaf, "-o", o])
+            per[k]["reuse_stat"] = {"status": r["status"] if r["status"] == "ok" else r["status"] + ":" + r["exc"][:50], "value": read_out(o) if os.path.exists(o) else "", "resolved": True}
+            o = os.path.join(d, f"reuse{k}_view")
+            r1 = run_cli(["index", re_gaf, re_gfa])
+            r = run_cli(["view", re_gaf, "-o", o, "-n", "r1"]) if r1["status"] == "ok" else r1
+            stt = "ok" if r["status"] in ("ok", "exit") else r["status"] + ":" + r["exc"][:50]
+            per[k]["reuse_view"] = {"status": stt, "value": (read_out(o) if os.path.exists(o) else "") + f"|{r['status']}", "resolved": True}
         cases = []
         nblocks = len(bgzf_blocks(os.path.join(d, "in.gaf" + zsuf)))
         for cmd in per[0]:
